@@ -935,7 +935,7 @@ impl Interp {
                 }
                 Act::VammAdmin {
                     v,
-                    sender: self.w.owner.clone(),
+                    sender: self.w.vamm_admin(v).to_string(),
                     msg,
                 }
             }
@@ -945,7 +945,7 @@ impl Interp {
              attach: 0 },
             Op::SetOpen { v, open } => Act::VammAdmin {
                 v: self.v_of(*v),
-                sender: self.w.owner.clone(),
+                sender: self.w.vamm_admin(self.v_of(*v)).to_string(),
                 msg: vamm::ExecuteMsg::SetOpen { open: *open },
             },
             Op::Register { v, add } => {
@@ -1117,7 +1117,7 @@ impl Interp {
                 }
                 Act::VammAdmin {
                     v,
-                    sender: self.w.owner.clone(),
+                    sender: self.w.vamm_admin(v).to_string(),
                     msg: vamm::ExecuteMsg::UpdateConfig {
                         base_asset_holding_cap: None,
                         open_interest_notional_cap: None,
